@@ -407,7 +407,7 @@ var (
 	// loop bookkeeping of the decorator's append-each loops and the call preconditions on the way in: nobody else's, so C11 discharges them
 	reDecorateAux  = regexp.MustCompile(`decorateNode/\w+#loop\d+-(entry|preserve(\.\d+)?):(foreach_(backing|count|old_rows)|frame_new)$|decorateNode/\w+#call:.*:not_yet_decorated@\d+$|\(\*decorator\.Decorator\)\.(DecorateNode|DecorateFile|ParseFile|Parse)#(call:.*:(maps|objects)@\d+|loop\d+-(entry|preserve(\.\d+)?):maps)$`)
 	reRestoreEntry = regexp.MustCompile(`(\.|\))(Fprint|Print|RestoreFile)#(call:.*(RestoreFile|Fprint):(restorer|maps|objects|ready)@\d+|ensures:(ready|maps_kept))$`)
-	reDup          = regexp.MustCompile(`#ensures:duplicates_rejected$|#maps:registered_before_recursion`)
+	reDup          = regexp.MustCompile(`#ensures:duplicates_rejected$|#maps:registered_before_recursion|#maps:allow_duplicate_handed_on`)
 )
 
 func restoreUnitsOf(p *Program, tier string, helpers bool) ([]*Unit, []UnitError) {
